@@ -42,6 +42,32 @@ ASSUMPTIONS = [
 ]
 
 
+def head_crosses_trunk(spec, call, model=None):
+    """True when some (explicit or defaulted) task parameter has a differentiable path to a feature:
+    differentiating that task's loss w.r.t. it sweeps trunk nodes, i.e. the heads share graph nodes
+    besides the features with the trunk sweep. C13 scopes retain_graph=False to programs where they do
+    not, so such calls are only generated with retain_graph=True (anything else would demand more than
+    the properties state)."""
+    from ..world import default_params_mtl
+
+    model = model or Model(spec)
+    tasks = call.get("tasks")
+    if tasks is None:
+        cutmodel = Model(spec, cut=call["features"])
+        _, tasks = default_params_mtl(model, cutmodel, call["losses"], call["features"])
+    fanc = set()
+    for f in call["features"]:
+        fanc |= set(model.values[f].anc)
+    return any(p in fanc for tp in tasks for p in tp)
+
+
+def fix_retain(spec, call, model=None):
+    if call["api"] == "mtl" and not call.get("retain", False) and head_crosses_trunk(spec, call, model):
+        call["retain"] = True
+        return True
+    return False
+
+
 def gen_mtl_call(rng, spec, roles, dtype, model=None, allow_default=True, linear_only=False, families=None):
     """Draws a *valid* mtl_backward call for the given world."""
     t = len(roles["losses"])
@@ -107,6 +133,7 @@ def gen_mtl_call(rng, spec, roles, dtype, model=None, allow_default=True, linear
         "agg": gen_det_agg(rng, t, dtype, linear_only=linear_only, families=families),
         "chunk": gen_chunk(rng, t), "retain": rng.random() < 0.5,
     }
+    fix_retain(spec, call, model)
     return call
 
 
